@@ -40,6 +40,9 @@ func NewRankCalculator[T comparable](options ...RankCalculatorOption[T]) *RankCa
 
 // Accumulate adds the value of type T to the rank calculator if it does not already exist, and increments the count
 func (r *RankCalculator[T]) Accumulate(entry T) {
+	// Reset replaces r.entries under the write lock; read the field under the read lock
+	r.mux.RLock()
+	defer r.mux.RUnlock()
 	r.entries.GetOrAdd(entry, &atomic.Int64{}).Add(1)
 }
 
